@@ -6,6 +6,8 @@ import numpy as np
 from . import _match as M
 from ..core import fp_watch
 
+from . import _jobs  # noqa: E402
+
 PROPERTY = "C01"
 LEVEL = "exploration"
 LEVEL_TEXT = ("Post-condition monitor on the real integral_matching_reference_stretch / Weaver.integral_match: after "
@@ -24,13 +26,17 @@ RULE = ("random cases: x class x y class x fixed-point layout (gaps>=2) x mode {
         "least one interval whose integral had to move by more than 1e-6 of its scale; distinct by case fingerprint."
         " Input classes include the coincidence classes of gen.py (almost-uniform, nano-scale, [0,1]-spanning, zero-straddling grids; near-ties, pico-scale, centred values) and int32 / Series / tuple / strided / read-only containers; explicitly given fixed points come in any order with repetitions and optionally together with a (necessarily inert) search strategy; documented defaults are exercised by omitting the argument."
         " Round-4 classes: one stretch of the reference / input 1e7..2**55 above the rest, step sizes shrinking over 5-8 decades towards x = 0 (per-interval tolerance from the conditioning of the interval and its neighbours plus the rounding leak of the neighbouring stretches - no share of the global magnitude), a 'large' kind with 5000..18000 samples x 70..260 fixed points (len(x)*len(x_ref) > 2**20), documented call forms (positional / named).")
-REQUIRED_MONITORS = ["c01:post"]
+REQUIRED_MONITORS = ["threads:match", "c01:post"]
 ASSUMPTIONS = ["admissible inputs only: strictly increasing x, distinct fixed points one per matched reference point, "
                ">= 1 interior sample per interval (re-checked by the oracle; others are discarded and counted)"]
 NSHARDS = 16
 
 
 def plan(tier, seed):
+    return _plan(tier, seed) + _jobs.plan(tier)
+
+
+def _plan(tier, seed):
     n = 16000 if tier == "quick" else 1200000
     per = n // NSHARDS
     specs = [{"kind": "random", "start": p * per, "count": per} for p in range(NSHARDS)]
@@ -128,6 +134,8 @@ def run_lattice(ctx, spec):
 
 
 def run(ctx, spec):
+    if spec["kind"] == "threads":      # concurrent independent requests vs their sequential answers
+        return _jobs.run(ctx, spec, ["match"])
     if spec["kind"] == "lattice":
         run_lattice(ctx, spec)
     else:
@@ -136,6 +144,8 @@ def run(ctx, spec):
 
 
 def replay(ctx, case):
+    if case["kind"] == "threads":
+        return _jobs.run_case(ctx, ["match"], case["idx"])
     if case["kind"] == "lattice":
         from traffic_weaver.match import integral_matching_reference_stretch
         m, idx = case["layout"]
